@@ -510,12 +510,32 @@ class Alpha(ast.NodeTransformer):
         return node
 
 
+_SITES = None
+# the sites Props/C09.await_sites_known pins; a site the current compiler no longer has is still required here (and breaks the theorem)
+EXPECTED_WRAPPED = ["environment.getattr", "environment.getitem", "<filter>", "<test>", "environment.call", "context.call"]
+EXPECTED_BARE = ["environment.get_template", "loop"]
+
+
+def _await_sites():
+    """await sites READ from compiler.py on this run, united with the pinned ones"""
+    global _SITES
+    if _SITES is None:
+        try:
+            from translate.async_pairs import await_sites
+            w, b = await_sites()
+        except Exception:  # noqa  (the translator's failure is reported as a broken tie by main)
+            w, b = [], []
+        _SITES = (sorted(set(w) | set(EXPECTED_WRAPPED)), sorted(set(b) | set(EXPECTED_BARE)))
+    return _SITES
+
+
 def missing_async(async_tree, erased_tree):
     """the other direction of the validation: every site where the compiler must await / iterate asynchronously does so.
     `async_tree` is the parsed async-mode code, `erased_tree` its erasure (nodes that stood under an `await` carry `_awaited`,
-    arguments of `auto_aiter` carry `_aitered`).  Must be awaited: `context.call` / `environment.call` (visit_Call),
-    `environment.getattr` / `environment.getitem`, every filter and test temporary, the recursive `loop(…)`, the module
-    accessors `make_module` / `_get_default_module`, `.close()` of a generator (was `aclose`).  Must be asynchronous: every
+    arguments of `auto_aiter` carry `_aitered`).  Must be awaited: every callee the code generator wraps in
+    `(await auto_await(` or prefixes with `choose_async('await ')` — READ from compiler.py on every run (context.call /
+    environment.call, environment.getattr / getitem, filter and test temporaries, the recursive `loop(…)`) — plus the erased
+    module accessors `make_module` / `_get_default_module` and `.close()` of a generator (was `aclose`).  Must be asynchronous: every
     function, every `for` except the ones over `._body_stream` / `parent_template.blocks.items()`; `LoopContext` must not occur."""
     out = []
     temps = set()
@@ -524,20 +544,22 @@ def missing_async(async_tree, erased_tree):
                 and isinstance(n.value, ast.Subscript) and isinstance(n.value.value, ast.Attribute) \
                 and n.value.value.attr in ("filters", "tests") and _is_name(n.value.value.value, "environment"):
             temps.add(n.targets[0].id)
+    wrapped, bare = _await_sites()
     for n in ast.walk(erased_tree):
         if not isinstance(n, ast.Call):
             continue
         f = n.func
         need = None
-        if isinstance(f, ast.Attribute) and isinstance(f.value, ast.Name):
-            if f.attr == "call" and f.value.id in ("context", "environment"):
-                need = f.value.id + ".call"
-            elif f.attr in ("getattr", "getitem") and f.value.id == "environment":
-                need = "environment." + f.attr
+        callee = ast.unparse(f) if isinstance(f, (ast.Attribute, ast.Name)) else ""
+        if callee in wrapped or callee in bare:          # sites READ from compiler.py (translate.async_pairs.await_sites)
+            need = callee
+        if isinstance(f, ast.Name) and f.id in temps and ("<filter>" in wrapped or "<test>" in wrapped):
+            need = "filter/test temporary"
         if isinstance(f, ast.Attribute) and f.attr in ("make_module", "_get_default_module", "close"):
-            need = "." + f.attr
-        if isinstance(f, ast.Name) and (f.id in temps or f.id == "loop"):
-            need = "filter/test temporary" if f.id in temps else "recursive loop call"
+            need = "." + f.attr                            # erased `*_async` accessors / `aclose` (ATTR_RENAMES)
+        if callee == "environment.get_template" and not getattr(n, "_awaited", False):
+            # `await environment.get_template(…).make_module_async(…)`: the await belongs to the accessor call around it
+            need = None
         if need and not getattr(n, "_awaited", False):
             out.append(f"{need}(…) is not awaited")
         if isinstance(f, ast.Name) and f.id == "loop" and n.args and not getattr(n.args[0], "_aitered", False):
